@@ -384,6 +384,51 @@ func r04_2(c *Ctx, r *Report) {
 		}
 		r.check(equalStrs(got, expect[name]), rule, name+" treats October 1582 as "+strings.Join(expect[name], " then "), c.fnPos(fn),
 			fmt.Sprintf("derived day intervals and actions under year == 1582 && month == 10: %q", got))
+		if name == "calendar.(*Solar).NextDay" && len(regs) == 2 && len(fn.Params) == 2 {
+			// which date each guard looks at: the removal the receiver's own year and month, the re-insertion
+			// the year and month the result is built with
+			var ctor *ssa.Call
+			for _, b := range fn.Blocks {
+				for _, ins := range b.Instrs {
+					if call, ok := ins.(*ssa.Call); ok && call.Common().StaticCallee() != nil && fname(call.Common().StaticCallee()) == "calendar.NewSolar" && len(call.Common().Args) == 6 {
+						ctor = call
+					}
+				}
+			}
+			who := func(v ssa.Value, field string, arg int) string {
+				if rc, f, ok := getterField(c, v); ok && f == field && rc == ssa.Value(fn.Params[0]) {
+					if ctor != nil {
+						if rc2, f2, ok2 := getterField(c, ctor.Common().Args[arg]); ok2 && f2 == field && rc2 == rc {
+							return "both" // the result is built with the receiver's own value (no stepping of this component)
+						}
+					}
+					return "receiver"
+				}
+				if ctor != nil && v == ctor.Common().Args[arg] {
+					return "result"
+				}
+				return "other: " + v.String()
+			}
+			var desc []string
+			okk := ctor != nil
+			for i, g := range regs {
+				y, _ := isEqConst(g.guard.Instrs[len(g.guard.Instrs)-1].(*ssa.If).Cond, 1582)
+				mb := g.guard.Succs[0]
+				m, _ := isEqConst(mb.Instrs[len(mb.Instrs)-1].(*ssa.If).Cond, 10)
+				wy, wm := who(y, "Solar.year", 0), who(m, "Solar.month", 1)
+				desc = append(desc, fmt.Sprintf("guard %d tests the year of the %s and the month of the %s", i+1, wy, wm))
+				as, _ := analyseGapRegion(g)
+				plus := strings.Contains(gapTableString(as), "+10")
+				want := "receiver"
+				if plus {
+					want = "result"
+				}
+				if wy != want || wm != want {
+					okk = false
+				}
+			}
+			r.check(okk, rule, name+": the removal looks at the receiver's date, the re-insertion at the stepped date", c.fnPos(fn), strings.Join(desc, "; "))
+		}
 	}
 	// any other function with such a guard is unreviewed
 	for _, fn := range c.Funcs {
